@@ -120,6 +120,7 @@ def setup_symbolic(ss, I, status=None):
     if I.symbolic:
         eqsmt.CTX = eqsmt.Ctx()
         eqsmt.DIVFREE[0] = True
+        pysym.ENG.div_mode = 'recip'
     status = status or {}
 
     def st(name):
